@@ -625,8 +625,11 @@ class MpDeSuite(Suite):
         for pre in [b"", b"\x91", b"\x92\x01", b"\x81\xa1k", b"\xdc\x00\x01"]:
             cases.append(Case("%s 0 20 - %s" % (self.op(), hx(pre + b"\xc1")), kind="c1"))
         # headers announcing huge sizes (C06): must not allocate / must be Incomplete or NoMemory
-        for h in [b"\xdb\xff\xff\xff\xff", b"\xc6\xff\xff\xff\xff", b"\xdd\xff\xff\xff\xff", b"\xdf\xff\xff\xff\xff", b"\xc9\xff\xff\xff\xff\x01", b"\xda\xff\xff", b"\xdc\xff\xff"]:
-            cases.append(Case("%s 0 20 - %s" % (self.op(), hx(h)), kind="huge"))
+        for h in [b"\xdb\xff\xff\xff\xff", b"\xc6\xff\xff\xff\xff", b"\xdd\xff\xff\xff\xff", b"\xdf\xff\xff\xff\xff", b"\xc9\xff\xff\xff\xff\x01", b"\xda\xff\xff", b"\xdc\xff\xff",
+                  b"\xdb\x00\x01\x00\x00", b"\xc6\x00\x01\x00\x00", b"\xc5\xff\xff", b"\xc8\xff\xff\x01", b"\xde\xff\xff", b"\xdb\x7f\xff\xff\xff", b"\xc6\x80\x00\x00\x00"]:
+            for pre in (b"", b"\x92\x01", b"\x81\xa1k", b"\x93\xa3abc"):
+                for tail in (b"", b"abc", b"\x00" * 300):
+                    cases.append(Case("%s 0 20 - %s" % (self.op(), hx(pre + h + tail)), kind="huge" if not tail else "huge-tail"))
         return cases
 
     @staticmethod
@@ -678,6 +681,16 @@ class MpDeSuite(Suite):
             want = "EmptyInput" if not case.meta["data"] else "IncompleteInput"
             if f[0] != want:
                 return ("mpde:prefix", "proper prefix %s of a well-formed object gave %s, expected %s" % (case.meta["data"][:40].hex(), f[0], want))
+        # C06: memory requested while deserializing <= one maximum-size string + pool granularity + linear in the bytes consumed,
+        # whatever lengths and counts the headers announce
+        req = [int(x[4:]) for x in f if x.startswith("req=")]
+        if req and len(f) >= 3 and f[2].lstrip("-").isdigit() and not int(case.line.split(" ")[1]) >= 100:
+            consumed = max(0, int(f[2]))
+            bound = 2 * (65535 + 64) + 2 * 4096 + 1024 + 32 * consumed        # a one-byte element costs one 16-byte slot
+            if req[0] > bound:
+                return ("mpde:memory-bound", "%d bytes requested after consuming %d bytes of %s (bound %d)" % (req[0], consumed, case.line[:80], bound))
+        if k == "huge" and f[0] not in ("IncompleteInput", "NoMemory"):
+            return ("mpde:huge", "a header announcing a huge length or count gave %s: %s" % (f[0], case.line))
         if k == "c1" and f[0] != "InvalidInput":
             return ("mpde:c1", "reserved code 0xC1 gave " + f[0])
         if k == "badkey" and f[0] != "InvalidInput":
@@ -1294,6 +1307,176 @@ class DepthSuite(Suite):
     def feature(self, case, h):
         return case.line if case.meta["d"] > 0 else None
 
+
+
+class CopyArrSuite(Suite):
+    """C13, last clause: copyArray(document -> C array) for every destination type, destination lengths around the array length,
+    the fixed-size and two-dimensional forms and the string form; compared with the model CA and judged independently:
+    count = min(lengths), cells beyond the count keep the fill pattern, integers in range arrive exactly and out-of-range ones as 0"""
+    name = "copyarr"
+    KINDS = {"i8": (True, 8), "u8": (False, 8), "i16": (True, 16), "u16": (False, 16), "i32": (True, 32), "u32": (False, 32), "i64": (True, 64), "u64": (False, 64)}
+
+    def canon_h(self, case, h):
+        return canon_nan(h)
+
+    def canon_m(self, case, m):
+        return canon_nan(m)
+
+    def elem(self, rng):
+        r = rng.random()
+        if r < 0.35:
+            k = rng.choice([0, 7, 8, 15, 16, 31, 32, 63, 64])
+            v = 2 ** k + rng.choice([-2, -1, 0, 1])
+            v = max(0, min(v, 2 ** 64 - 1))
+            if rng.random() < 0.4 and v < 2 ** 63:
+                return "I-%d" % v
+            return "U%d" % v
+        if r < 0.5:
+            return "d%016x" % gens.double_bits(rng.choice([0.0, 1.5, -1.5, 255.0, 256.0, -129.0, 65535.5, 2147483648.0, -2147483649.0, 4294967296.0, 1e19, -1e19, 1e300, 3.999]))
+        if r < 0.6:
+            return "f%08x" % rng.choice([0x3fc00000, 0x4f000000, 0xcf000001, 0x7f7fffff, 0x7f800000, 0x7fc00000, 0x00000001])
+        if r < 0.7:
+            return rng.choice("SL") + rng.choice([b"12", b"-7", b"3.9", b"300", b"abc", b"", b"1e3", b"18446744073709551616"]).hex()
+        if r < 0.8:
+            return rng.choice(["N", "T", "F"])
+        if r < 0.9:
+            return "[" + ",".join(self.elem(rng) for _ in range(rng.choice([0, 1, 2, 3, 4, 5]))) + "]"
+        return rng.choice(["{61:I1}", "R31", "[]"])
+
+    def generate(self, rng, tier):
+        cb = cfgbits(self.cfg)
+        n = getattr(self, "n", 4000 if tier == "quick" else 300000)
+        kinds = list(self.KINDS) + ["f", "d"]
+        cases = []
+        for _ in range(n):
+            r = rng.random()
+            ln = rng.choice([0, 1, 2, 3, 4, 6])
+            if r < 0.08:
+                doc = self.elem(rng)                      # not necessarily an array
+            else:
+                doc = "[" + ",".join(self.elem(rng) for _ in range(ln)) + "]"
+            kind = rng.choice(kinds)
+            f = rng.random()
+            if f < 0.55:
+                dn = rng.choice([0, 1, max(0, ln - 1), ln, ln + 1, ln + 3])
+                cases.append(Case("copyarr %d %s %d t:%s" % (cb, kind, dn, doc), doc=doc, kind=kind, dn=dn, form=1))
+            elif f < 0.7:
+                cases.append(Case("copyarr3 %d %s t:%s" % (cb, kind, doc), doc=doc, kind=kind, dn=3, form=1))
+            elif f < 0.85:
+                cases.append(Case("copyarr2 %d %s t:%s" % (cb, kind, doc), doc=doc, kind=kind, dn=2, form=2))
+            else:
+                sb = rng.choice([b"", b"a", b"ab", b"abc", b"abcd", b"abcdefg", b"abcdefgh", b"abcdefghijkl", b"a\x00b", b"\xff\xfe"])
+                sdoc = rng.choice(["S" + sb.hex(), "S" + sb.hex(), "L" + sb.replace(b"\x00", b"").hex(), "N", "I5", "[S61]", "R" + (sb.hex() or "31")])
+                cases.append(Case("copystr %d t:%s" % (rng.choice([1, 2, 4, 8]), sdoc), doc=sdoc, kind="str", form=3))
+        return cases
+
+    def oracle(self, case, h):
+        o = Suite.oracle(self, case, h)
+        if o:
+            return (o[0], o[1] + " on " + case.line[:100])
+        f = h.split(" ")
+        m = case.meta
+        if m["form"] == 3:
+            n = int(case.line.split(" ")[1])
+            buf = bytes.fromhex(f[1])
+            if len(buf) != n:
+                return ("copyarr:size", "destination of %d bytes reported as %d" % (n, len(buf)))
+            doc = m["doc"]
+            sb = bytes.fromhex(doc[1:]) if doc[0] in "SL" else b""
+            want = sb[: n - 1] + b"\x00" + b"\x5a" * (n - 1 - min(n - 1, len(sb)))
+            if buf != want:
+                return ("copyarr:string", "char[%d] after copying %r: %s, expected %s" % (n, sb, buf.hex(), want.hex()))
+            return None
+        tree = parse_tree(m["doc"]) if m["doc"][0] == "[" else None
+        items = tree[1] if tree and tree[0] == "A" else []
+        count = int(f[0])
+        cells = f[1:]
+        kind = m["kind"]
+        fill = {"f": "5a5a5a5a", "d": "5a5a5a5a5a5a5a5a"}.get(kind) or str(int("5a" * (self.KINDS[kind][1] // 8), 16))
+        if m["form"] == 2:
+            if count != min(2, len(items)) or len(cells) != 6:
+                return ("copyarr:count", "copied %d rows of %d into [2][3] (%d cells shown)" % (count, len(items), len(cells)))
+            for i in range(2):
+                row = items[i][1] if i < len(items) and items[i][0] == "A" else []
+                for j in range(3):
+                    if (i >= len(items) or j >= len(row)) and cells[i * 3 + j] != fill:
+                        return ("copyarr:touched", "cell [%d][%d] beyond the copied part changed to %s: %s" % (i, j, cells[i * 3 + j], case.line[:100]))
+            return None
+        dn = m["dn"]
+        if len(cells) != dn:
+            return ("copyarr:size", "destination of %d cells reported as %d" % (dn, len(cells)))
+        if count != min(dn, len(items)):
+            return ("copyarr:count", "copied %d of %d elements into %d cells: %s" % (count, len(items), dn, case.line[:100]))
+        for i in range(count, dn):
+            if cells[i] != fill:
+                return ("copyarr:touched", "cell %d beyond the %d copied ones changed to %s: %s" % (i, count, cells[i], case.line[:100]))
+        if kind in self.KINDS:
+            signed, bits = self.KINDS[kind]
+            lo, hi = (-(2 ** (bits - 1)), 2 ** (bits - 1) - 1) if signed else (0, 2 ** bits - 1)
+            for i in range(count):
+                it = items[i]
+                if it[0] in "UI":
+                    v = int(it[1])
+                    want = v if lo <= v <= hi else 0
+                    if cells[i] != str(want):
+                        return ("copyarr:value", "element %s copied into %s as %s, expected %d" % (it[1], kind, cells[i], want))
+        return None
+
+    def feature(self, case, h):
+        return (case.meta["form"], case.meta["kind"], h.split(" ")[0])
+
+
+class DeserMemSuite(Suite):
+    """C06, last clause: the memory requested while deserializing is bounded by one maximum-size string plus a linear function of the bytes
+    consumed - for well-formed, truncated and hostile inputs (long strings, many tiny elements, deep nesting, repeated keys, escapes).
+    Implementation only (the ledger is the implementation's): no model line."""
+    name = "desermem"
+    uses_driver = False
+
+    def generate(self, rng, tier):
+        cb = cfgbits(self.cfg)
+        n = getattr(self, "n", 1500 if tier == "quick" else 60000)
+        texts = []
+        for k in (0, 1, 30, 31, 32, 63, 64, 1000, 40000, 65535, 65536, 70000):
+            texts.append(b'"' + b"a" * k + b'"')
+            texts.append(b'"' + b"a" * k)                                   # unterminated
+            texts.append(b'["x","' + b"\\u00e9" * (k // 6) + b'"]')
+            texts.append(b'{"' + b"k" * k + b'":1}')
+        for k in (1, 255, 256, 257, 1023, 1024, 1025, 5000):
+            texts.append(b"[" + b",".join([b"1"] * k) + b"]")
+            texts.append(b"[" + b",".join([b'""'] * k) + b"]")
+            texts.append(b"[" + b",".join(b'"%d"' % i for i in range(k)) + b"]")
+            texts.append(b"{" + b",".join(b'"k":%d' % i for i in range(k)) + b"}")           # one key repeated: values replaced
+            texts.append(b"{" + b",".join(b'"k%d":[]' % i for i in range(k)) + b"}")
+            texts.append(b"[" * min(k, 250) + b"]" * min(k, 250))
+            texts.append(b"[" + b",".join([b"[]"] * k))                      # truncated
+        for _ in range(n):
+            exp, txt = gens.gen_json_doc(rng, maxdepth=rng.choice([1, 2, 3, 5]), budget=rng.choice([3, 8, 14, 30, 60]))
+            if rng.random() < 0.3 and txt:
+                cut = rng.randrange(len(txt))
+                txt = txt[:cut]
+            texts.append(txt)
+        return [Case("jsonmem %d %d %s" % (cb, rng.choice([10, 50, 255]), hx(t)), text=t, nocompare=True) for t in texts]
+
+    def oracle(self, case, h):
+        o = Suite.oracle(self, case, h)
+        if o:
+            return (o[0], o[1] + " on " + case.line[:100])
+        f = h.split(" ")
+        consumed = int(f[1])
+        req = int(f[2][4:])
+        peak = int(f[3][5:])
+        # total requested: strings grow by doubling (<= 2x their length + start size), slots 16 bytes each in pools of 256, table of pools
+        bound_total = 2 * (65535 + 64) + 2 * 4096 + 1024 + 24 * consumed      # observed on the unchanged tree: <= 11.2 bytes per byte consumed
+        bound_peak = (65535 + 64) + 2 * 4096 + 1024 + 20 * consumed             # observed: <= 10.1
+        if req > bound_total:
+            return ("desermem:total", "%d bytes requested after consuming %d bytes (%s), bound %d: %r" % (req, consumed, f[0], bound_total, case.meta["text"][:40]))
+        if peak > bound_peak:
+            return ("desermem:peak", "%d bytes held after consuming %d bytes (%s), bound %d: %r" % (peak, consumed, f[0], bound_peak, case.meta["text"][:40]))
+        return None
+
+    def feature(self, case, h):
+        return h.split(" ")[0] + str(len(case.meta["text"]).bit_length())
 
 # ================================================================================================ C16: streams
 class StreamSuite(Suite):
